@@ -18,6 +18,5 @@ CONSTANTS
   Jobs = {"j1"}
   Owner <- OwnB
   AnyTurn = TRUE
-SPECIFICATION XFairSpec
+SPECIFICATION XSpec
 INVARIANTS XTypeOK PendingBound TypeOK RealSafe RepBoth
-PROPERTIES CompletesRepaired JobSeenRepaired
